@@ -11,6 +11,13 @@ POLL = 300_000          # the prefetcher's poll period (receiver.py: asyncio.wai
 
 
 # --------------------------------------------------------------------------------------------- scenarios
+# malformed payloads: things a broker can really deliver that are not a task message - including the value of the
+# receiver's own end-of-queue sentinel (b"-1"), empty, JSON scalars / containers, an object missing fields, wrong
+# types, non-UTF-8
+BAD_PAYLOADS = [b"-1", b"", b"null", b"0", b"{}", b"[]", b'"x"', b'{"task_name": "ta"}',
+                b'{"task_id": 1, "task_name": "ta", "labels": [], "args": 5, "kwargs": null}', b"\xff\xfe\x00garbage", b"-1 ", b"true"]
+
+
 def gen_scenario(r, prof):
     """prof: dict(limited_only, backlog, never, stop_p, n_p, ends_p, probe, faults, wtt_p)"""
     A = r.choice([1, 1, 2, 2, 3, 4] if prof.get("limited_only") else [None, 0, 1, 1, 1, 2, 2, 3, 4])
@@ -27,6 +34,11 @@ def gen_scenario(r, prof):
     t = 0
     msgs = []
     never = 0
+    pays = list(BAD_PAYLOADS)
+    r.shuffle(pays)
+    if r.random() < .5:     # the sentinel-looking payload first in half of the scenarios that have malformed messages
+        pays.remove(b"-1")
+        pays.insert(0, b"-1")
     for i in range(n):
         t += r.choice([0, 0, 0, 0, 1, 2]) if burst else r.choice([0, 0, 0, 100_000, 500_000, 2 * US, 300_000]) + r.choice([0, 0, 1, 3])
         kind = r.choices(["ok", "bad", "unk"], [8, 1, 1])[0] if prof.get("faults", True) else "ok"
@@ -52,8 +64,18 @@ def gen_scenario(r, prof):
                 m["save_fail"] = True
             elif k < .3 and style == "async" and dur > 0:
                 m["tlabel_us"] = r.choice([dur // 2, dur * 2])
+        if kind == "bad":
+            m["payload"] = list(pays.pop(0)) if pays else None       # each payload at most once per scenario (identity by value)
+            m["ack"] = r.choice(["none", "none", "sync", "async"])     # plain bytes and AckableMessage
+        elif kind == "ok" and style == "async" and dur > 0 and "tlabel_us" not in m and not m.get("pre_fail") \
+                and r.random() < prof.get("slowcancel", .08):
+            # timeout label that fires + a body that keeps awaiting while it handles the cancellation
+            m["tlabel_us"] = r.choice([dur // 2, dur // 4 or 1, 50_000 if dur > 50_000 else dur // 2])
+            m["cleanup_us"] = r.choice([50_000, 300_000, US, 2 * US])
+        if m.get("tlabel_us") is not None and m["tlabel_us"] < dur and "cleanup_us" not in m and r.random() < .5:
+            m["cleanup_us"] = r.choice([50_000, 300_000, US])
         msgs.append(m)
-    total = sum(m["dur"] for m in msgs if m["dur"] > 0)
+    total = sum(m["dur"] + m.get("cleanup_us", 0) for m in msgs if m["dur"] > 0)
     sc = dict(A=A, P=P, N=N, wtt_us=wtt, stop_us=None, ends=False, ack_type=r.choice([None, None, "when_received", "when_executed", "when_saved"]),
               msgs=msgs)
     if r.random() < prof.get("stop_p", .4):
